@@ -1,9 +1,9 @@
 package sym
 
 import (
-	"os"
 	"fmt"
 	"go/types"
+	"os"
 	"runtime/debug"
 	"sort"
 	"strings"
@@ -16,7 +16,7 @@ import (
 
 // FuncReport summarises the verification-condition generation for one function.
 type FuncReport struct {
-	Aliases int // alias returns checked (closure families)
+	Aliases     int // alias returns checked (closure families)
 	Func        string
 	Obligations []*Obligation
 	Error       string // unsupported construct / contract error: every obligation of the function is undischarged
